@@ -235,6 +235,18 @@ def r6_floor(ctx):
         r.violation("floor", "multiply_frac does not round down: %s" % s[:200])
     else:
         r.undecided("floor", "multiply_frac = %s" % s[:200])
+    pr = ctx.prog.body("melstf::state::melmint::pro_rata")
+    if pr is not None:
+        ctx.analysed(pr)
+        rr = q.ret_assignments(pr)
+        vals = sorted(sig(x[2]) for x in rr)
+        ok = vals == sorted(["0", "melmint::multiply_frac($1, Ratio::new($2, $3))"])
+        r.check(ok, "pro_rata", "pro_rata(x, mine, total) = 0 if total == 0 else multiply_frac(x, mine/total)", "pro_rata returns %s" % vals)
+        z = [a for a in q.cmp_atoms(pr) if a[1] in ("Eq($3, 0)", "Eq(0, $3)")]
+        if z and ok:
+            f = force(pr, {z[0][0]: 0})
+            live = [sig(x[2]) for x in rr if x[0] in f.reach]
+            r.check(live == ["melmint::multiply_frac($1, Ratio::new($2, $3))"], "pro_rata/nonzero", "non-zero total ⇒ the floor share", "with a non-zero total pro_rata returns %s" % live)
 
 
 def r7_fees(ctx):
